@@ -644,23 +644,36 @@ func (sc c14Scenario) run(r Rng) (fails []Failure, extra [][3]string) {
 				time.Sleep(10 * time.Millisecond)
 			}
 			go func() { c, err := ln.Accept(); ch <- acc{c, err} }()
-			if !early {
-				time.Sleep(3 * time.Millisecond)
-				sim.say("TARGET " + sc.mycall)
-				sim.say("NEWSTATE IRS")
-				sim.say("CONNECTED " + sc.peer + " 500")
-			}
-			select {
-			case a := <-ch:
-				if a.err != nil {
-					fail("accept", "Accept: %v", a.err)
-					return
+			// the listener registers for the TNC's messages asynchronously: on a loaded machine the
+			// first TARGET/CONNECTED may precede that registration, so the TNC repeats them
+			var a acc
+			accepted := false
+			for attempt := 0; attempt < 6 && !accepted; attempt++ {
+				if !early || attempt > 0 {
+					time.Sleep(3 * time.Millisecond)
+					sim.say("TARGET " + sc.mycall)
+					sim.say("NEWSTATE IRS")
+					sim.say("CONNECTED " + sc.peer + " 500")
+					if early {
+						time.Sleep(10 * time.Millisecond)
+						sim.arq(sc.inbound[0])
+					}
 				}
-				conn = a.c
-			case <-time.After(3 * time.Second):
-				fail("accept", "Accept did not return after TARGET/CONNECTED")
+				select {
+				case a = <-ch:
+					accepted = true
+				case <-time.After(500 * time.Millisecond):
+				}
+			}
+			if !accepted {
+				fail("accept", "Accept did not return after (six times repeated) TARGET/CONNECTED")
 				return
 			}
+			if a.err != nil {
+				fail("accept", "Accept: %v", a.err)
+				return
+			}
+			conn = a.c
 			if conn.RemoteAddr().String() != sc.peer {
 				fail("accept", "remote address %q, expected %q", conn.RemoteAddr(), sc.peer)
 			}
